@@ -434,6 +434,7 @@ def run_config(chk, facts, cfg):
 
     # ---- C12-d -----------------------------------------------------------------------------------
     check_buffer_agreement(chk, facts)
+    check_carve_alignment(chk, facts)
 
     # ---- C12-f -----------------------------------------------------------------------------------
     check_scratch_init(chk, facts)
@@ -693,6 +694,30 @@ def check_buffer_agreement(chk, facts):
                     chk.notes.append(f"C12-d observation: {nm} variations={key[1]} carves alignments {aligns}: worst-case padding {pad} vs slack "
                                      f"{slack_min}; covered only by the advertised-but-unused max_other_points term (value-level, not claimed)")
         chk.floor("C12-d", f"carving cases of {nm}", len(carved), 2)
+
+
+def check_carve_alignment(chk, facts):
+    """C12-d, the link its padding bound rests on: slices are carved at align_of::<T>(), nothing coarser"""
+    from ..guards import expr_mentions_call
+    ROUND = re.compile(r"(align_up|align_offset|next_multiple_of|checked_next_multiple_of|align_to(_mut)?|pod_align_to(_mut)?)(::<.*>)?$")
+    n = 0
+    for b in facts.bodies_in_files("skrifa", [r"skrifa/src/outline/glyf/memory\.rs$"]):
+        for bb, t in b.calls():
+            if not ROUND.search(t.callee) or len(t.args) < 2:
+                continue
+            al = strip_casts(expr_of(b, t.args[-1]))
+            if al[0] == "param":
+                continue    # the rounding helper itself / a forwarding wrapper: its callers are inspected
+            n += 1
+            only_align = expr_mentions_call(al, ("core::mem::align_of", "core::mem::align_of_val")) and \
+                not expr_mentions_call(al, ("core::mem::size_of", "core::mem::size_of_val"))
+            chk.ob("C12-d", f"{b.path.split('::')[-1]} line {t.line}: carve position rounded to {show(b, al)}", only_align,
+                   key=f"{b.path}|carve-alignment", file=b.file, line=t.line, fn=b.path,
+                   detail="the advertised slack covers the padding needed to reach align_of::<T>() for each carved slice (C12-d's "
+                          "padding bound is computed from the types' alignments); rounding the position to anything coarser "
+                          "(e.g. size_of::<T>(): 8 for a point of two i32, alignment 4) can need more padding than advertised, so a "
+                          "caller buffer of exactly the advertised size is rejected depending on its address")
+    chk.floor("C12-d", "position-rounding calls in the memory module", n, 1)
 
 
 def check_scratch_init(chk, facts):
